@@ -1,0 +1,45 @@
+//go:build verif
+
+// Contracts for the lungovc verification-condition generator (/verif).
+// This file is comment-only; it is never part of a normal build.
+
+package dbkit
+
+// ---------------------------------------------------------------------------
+// semaphore.go
+//
+// The semaphore is channel based (select / send / receive are outside the
+// generator's reach): its two operations are trusted and tied to the ghost
+// counter ghost.held of /verif/specs/runtime.contracts. Release without a token
+// in hand is the "semaphore full" panic.
+
+//@ func (*Semaphore).Acquire
+//@   trusted
+//@   modifies ghost.held
+//@   ensures ghost.held == old(ghost.held) + ite(result, 1, 0)
+//@ func (*Semaphore).Release
+//@   trusted
+//@   requires [C16 name=token-in-hand] ghost.held >= 1
+//@   modifies ghost.held
+//@   ensures ghost.held == old(ghost.held) - 1
+
+// ---------------------------------------------------------------------------
+// atomic.go
+//
+// AtomicWriteFile against the ghost POSIX crash model of /verif/specs/fs.*:
+// OLD is the content the path held on entry, NEW the complete stream of r.
+// never-torn is checked after every call the function makes (every system-call
+// boundary at which the process may be killed): the path resolves to the
+// complete old content, or to the complete new content all of which has been
+// fsynced. committed-durable: once nil is returned the new content, the file
+// data and the directory entry are all durable.
+
+//@ func AtomicWriteFile
+//@   tags C05
+//@   uses fs
+//@   let OLD = old(ghost.fsVol)[path]
+//@   let NEW = spec.contentOf(r)
+//@   callinv [C05 name=never-torn] ghost.fsVol[path] == OLD || (ghost.fsVol[path] == NEW && ghost.fsSynced[path])
+//@   ensures [C05 name=never-torn] ghost.fsVol[path] == OLD || (ghost.fsVol[path] == NEW && ghost.fsSynced[path])
+//@   ensures [C05 name=committed-durable] imp(err == nil, ghost.fsVol[path] == NEW && ghost.fsSynced[path] && ghost.fsEntryDurable[path])
+//@   ensures [C05 name=empty-path-rejected] imp(path == "", err != nil)
